@@ -6,5 +6,5 @@ CONSTANTS
   Ns = {1,2}
   Reps = {1,2}
   Lock = TRUE
-INVARIANTS Deterministic NoFault PrefixOK MutexSound Emit
-CHECK_DEADLOCK TRUE
+INVARIANTS Deterministic NoFault NoWedge PrefixOK MutexSound Emit
+CHECK_DEADLOCK FALSE
